@@ -1250,6 +1250,10 @@ class Converter:
         # Use one ordered list for parameters, body outputs, Loop inputs and Loop outputs:
         # iterating two different sets gives them different orders.
         loop_state_vars = sorted(vars_def_in_loop.intersection(exposed_uses | live_out))
+        if isinstance(loop_stmt, ast.For) and python_loop_var_name in live_out:
+            # Python leaves the last index in the loop variable (and its previous value if
+            # the loop does not run): carry it like any other variable the loop assigns.
+            loop_state_vars = sorted({*loop_state_vars, python_loop_var_name})
         scan_outputs = []  # TODO
         outputs = loop_state_vars + scan_outputs
 
@@ -1276,6 +1280,10 @@ class Converter:
             onnx_var_name = self._generate_unique_name(pv)
             parameter = make_value(onnx_var_name, None, self._source_of(loop_stmt))
             self._current_fn.append_parameter(parameter)
+            if pv == python_loop_var_name:
+                # In each iteration the loop variable starts as the iteration number,
+                # not as the value carried over from the previous iteration.
+                continue
             self._bind(
                 pv,
                 values.SymbolValue(
